@@ -73,3 +73,6 @@ Properties/C07.vos Properties/C07.vok Properties/C07.required_vos: Properties/C0
 Properties/C08.vo Properties/C08.glob Properties/C08.v.beautified Properties/C08.required_vo: Properties/C08.v Base.vo Prim.vo
 Properties/C08.vio: Properties/C08.v Base.vio Prim.vio
 Properties/C08.vos Properties/C08.vok Properties/C08.required_vos: Properties/C08.v Base.vos Prim.vos
+Model/Ops.vo Model/Ops.glob Model/Ops.v.beautified Model/Ops.required_vo: Model/Ops.v Base.vo Prim.vo Model/Digit.vo Model/Core.vo Model/Shift.vo Model/AddSub.vo Model/Mul.vo Model/Div.vo Model/Bits.vo Model/Pow.vo
+Model/Ops.vio: Model/Ops.v Base.vio Prim.vio Model/Digit.vio Model/Core.vio Model/Shift.vio Model/AddSub.vio Model/Mul.vio Model/Div.vio Model/Bits.vio Model/Pow.vio
+Model/Ops.vos Model/Ops.vok Model/Ops.required_vos: Model/Ops.v Base.vos Prim.vos Model/Digit.vos Model/Core.vos Model/Shift.vos Model/AddSub.vos Model/Mul.vos Model/Div.vos Model/Bits.vos Model/Pow.vos
